@@ -38,7 +38,9 @@ theorem applyFns_nil (o : Obj) : applyFns [] o = o := rfl
 theorem applyFns_cons (f : Fn) (fs : List Fn) (o : Obj) : applyFns (f :: fs) o = applyFns fs (f.app o) := rfl
 
 theorem app_meta (f : Fn) (o : Obj) : (f.app o).uid = o.uid ∧ (f.app o).rv = o.rv ∧ (f.app o).marked = o.marked := by
-  cases f <;> exact ⟨rfl, rfl, rfl⟩
+  cases f with
+  | userFin add g => cases add <;> exact ⟨rfl, rfl, rfl⟩
+  | _ => exact ⟨rfl, rfl, rfl⟩
 
 theorem applyFns_meta (fs : List Fn) (o : Obj) :
     (applyFns fs o).uid = o.uid ∧ (applyFns fs o).rv = o.rv ∧ (applyFns fs o).marked = o.marked := by
@@ -60,6 +62,7 @@ def lastOp (x : String) : List Fn → Option Bool
       match f with
       | .block g => if g = x then some true else none
       | .allow g => if g = x then some false else none
+      | .userFin add g => if g = x then some add else none
       | .setStatus _ _ => none
 
 /-- membership in the finalizer list after the fns: decided by the last function that mentions the
@@ -90,6 +93,18 @@ theorem mem_applyFns (x : String) (fs : List Fn) (o : Obj) :
         · simp [e]
         · have : ¬ x = g := fun h => e h.symm
           simp [e, this]
+      | userFin add g =>
+        cases add
+        · simp only [Fn.app, mem_allow]
+          by_cases e : g = x
+          · simp [e]
+          · have : ¬ x = g := fun h => e h.symm
+            simp [e, this]
+        · simp only [Fn.app, mem_block]
+          by_cases e : g = x
+          · simp [e]
+          · have : ¬ x = g := fun h => e h.symm
+            simp [e, this]
       | setStatus k v => simp [Fn.app]
 
 /-! ## requests only accumulate -/
